@@ -2167,6 +2167,7 @@ TSTree *ts_parser_parse(
             ? &old_tree->included_ranges[j]
             : &self->lexer.included_ranges[j - old_tree->included_range_count];
           if (
+            range->end_byte > range->start_byte &&
             range->end_byte <= difference->start_byte &&
             (!preceding_range || range->end_byte > preceding_range->end_byte)
           ) {
